@@ -168,8 +168,12 @@ FullSync<'a, ItemType, OgreAllocatorType, BUFFER_SIZE, MAX_STREAMS> {
                              Fut: Future<Output=&'a mut ItemType>>
                             (&'a self,
                              setter: F) -> keen_retry::RetryConsumerResult<(), F, ()> {
-        if let Some((ogre_arc_item, slot)) = OgreArc::new(&self.allocator) {
+        if let Some((slot, slot_id)) = self.allocator.alloc_ref() {
             setter(slot).await;
+            // the shared handle takes the slot over only now that the setter has filled it in: created before the `await`, it would be dropped together with this
+            // future if the caller cancels the send while the setter is suspended -- running the payload's destructor on whatever the slot held before
+            // (a value that had already been destroyed when its last handle was released)
+            let ogre_arc_item = OgreArc::from_allocated(slot_id, &self.allocator);
             _ = self.send_derived(&ogre_arc_item);
             keen_retry::RetryResult::Ok { reported_input: (), output: () }
         } else {
